@@ -73,10 +73,19 @@ impl Session {
         let rt = tokio::runtime::Builder::new_multi_thread().worker_threads(2).max_blocking_threads(16).thread_stack_size(crate::core::CASE_STACK).enable_all().build().expect("tokio runtime");
         let (client_io, server_io) = tokio::io::duplex(4 << 20);
         let (srv_r, srv_w) = tokio::io::split(server_io);
-        rt.spawn(async move {
-            let (mainloop, _client) = async_lsp::MainLoop::new_server(|client| lsp::server::Server::new_router(client));
-            let _ = mainloop.run_buffered(srv_r.compat(), srv_w.compat_write()).await;
-        });
+        // like the shipped binary (#[tokio::main]): the main loop is driven by block_on on a thread that is NOT a
+        // runtime worker; snapshot tasks run on the blocking pool, async helpers on the workers
+        let handle = rt.handle().clone();
+        std::thread::Builder::new()
+            .name("lsp-main-loop".into())
+            .stack_size(8 << 20)
+            .spawn(move || {
+                handle.block_on(async move {
+                    let (mainloop, _client) = async_lsp::MainLoop::new_server(|client| lsp::server::Server::new_router(client));
+                    let _ = mainloop.run_buffered(srv_r.compat(), srv_w.compat_write()).await;
+                });
+            })
+            .expect("spawn main loop thread");
         let (mut cli_r, mut cli_w) = tokio::io::split(client_io);
         let (tx, mut wrx) = tokio::sync::mpsc::unbounded_channel::<Vec<u8>>();
         rt.spawn(async move {
@@ -131,13 +140,37 @@ impl Session {
         self.dir.join(rel.trim_start_matches('/'))
     }
     pub fn uri(&self, rel: &str) -> String {
-        format!("file://{}", self.path(rel).to_string_lossy())
+        // percent-encode everything a file: URI does not allow literally (blanks, '#', non-ASCII, ...)
+        let mut out = String::from("file://");
+        for b in self.path(rel).to_string_lossy().bytes() {
+            if b.is_ascii_alphanumeric() || b"/-_.~".contains(&b) {
+                out.push(b as char);
+            } else {
+                out.push_str(&format!("%{:02X}", b));
+            }
+        }
+        out
     }
-    /// relative name ("/ws/main.td") of a URI produced by this session
+    /// relative name ("/ws/main.td") of a URI produced by the server for this session
     pub fn rel_of(&self, uri: &str) -> Option<String> {
         let p = uri.strip_prefix("file://")?;
+        let mut bytes = Vec::new();
+        let pb = p.as_bytes();
+        let mut i = 0;
+        while i < pb.len() {
+            if pb[i] == b'%' && i + 3 <= pb.len() && p.is_char_boundary(i + 1) && p.is_char_boundary(i + 3) {
+                if let Ok(v) = u8::from_str_radix(&p[i + 1..i + 3], 16) {
+                    bytes.push(v);
+                    i += 3;
+                    continue;
+                }
+            }
+            bytes.push(pb[i]);
+            i += 1;
+        }
+        let decoded = String::from_utf8_lossy(&bytes).to_string();
         let d = self.dir.to_string_lossy().to_string();
-        p.strip_prefix(&d).map(|s| s.to_string())
+        decoded.strip_prefix(&d).map(|s| s.to_string())
     }
     pub fn write_disk(&self, rel: &str, text: &str) {
         let p = self.path(rel);
